@@ -71,6 +71,16 @@ class Check:
         """solver configuration of the main client"""
         return {}
 
+    @staticmethod
+    def safe_config(cfg, spec):
+        """z3.Optimize does not honour the deterministic resource limit on non-linear
+        objectives; such specs are only solved with the incremental optimiser."""
+        if cfg.get("optimizer") == "optimize" and gen.has_nonlinear(spec):
+            cfg = dict(cfg)
+            cfg.pop("optimizer")
+            cfg.pop("optimize_priority", None)
+        return cfg
+
     def steer(self, rng, key):
         st = rng.choice(STEER_MODES)
         if st is None:
@@ -82,7 +92,7 @@ class Check:
     def plan(self, run_seed, tier):
         rng = keyed_rng(run_seed, "plan")
         spec = gen.gen_spec(keyed_rng(run_seed, "spec"), self.profile(rng, tier))
-        cfg = self.config(rng, spec, tier)
+        cfg = self.safe_config(self.config(rng, spec, tier), spec)
         plan = {"property": self.pid, "run_seed": run_seed, "sim_version": 1, "tier": tier,
                 "clients": [{"id": "A", "spec": spec, "config": cfg}], "script": []}
         fault_free = rng.random() < 0.3
@@ -95,7 +105,7 @@ class Check:
         plan["script"].append(step)
         n_more = rng.choice([0, 0, 1, 2, 3]) if not spec.get("objectives") else 0
         for j in range(n_more):
-            step = {"client": "A", "op": "find_another"}
+            step = {"client": "A", "op": "find_another", "if_model": True}
             if not fault_free:
                 st = self.steer(rng, 10 + j)
                 if st is not None:
